@@ -1,5 +1,6 @@
 //! vh_ledger — resource layer at ledger level: Ledger.tla (C03, C04, C09, C10, C43).
 #![allow(clippy::all)]
+mod idtypes;
 mod ledger;
 mod snap;
 
@@ -8,6 +9,7 @@ fn main() {
     match module.as_str() {
         "ledger" => ledger::run(&mode, &args),
         "snap" => snap::run(&mode, &args),
+        "idtypes" => idtypes::run(&mode, &args),
         m => vh::unknown(m),
     }
 }
